@@ -68,6 +68,8 @@ def run_unit(uid, overrides=None):
         vcs = eng.run(x, h2, max_paths=u.max_paths)
         res['errors'].extend(eng.errors)
         res['paths'] = eng.paths
+        if eng.inlined_helpers:
+            res['inlined_helpers'] = sorted(eng.inlined_helpers)
         for vc in vcs:
             solve.discharge(vc, axioms)
             res['vcs'].append({'name': vc.name, 'kind': vc.kind, 'path': vc.decisions, 'status': vc.status,
